@@ -85,3 +85,14 @@ package keeper
 //@   ensures [C04.withdraw.nonneg] err == nil ==> refund.Amount >= 0
 //@   loop L1 invariant -1 <= rangeindex
 //@   loop L1 invariant forall a addr, d string :: bal(a, d) == old(bal(a, d))
+
+// GetAllWorker: the genesis export of the Worker store - every stored record, each exactly as stored
+//@ func (Keeper) GetAllWorker(ctx) (list)
+//@   modifies nothing
+//@   ensures [C18.getall.worker.stored] forall j int :: 0 <= j && j < len(list) ==> has(Worker, list[j].Workername) && Worker[list[j].Workername] == list[j]
+//@   ensures [C18.getall.worker.complete] forall c string :: has(Worker, c) ==> contains(list, Worker[c])
+//@   ensures [C18.getall.worker.distinct] forall a int, b int :: 0 <= a && a < b && b < len(list) ==> list[a].Workername != list[b].Workername
+//@   loop L1 invariant 0 <= itpos() && itpos() <= itlen() && len(list) == itpos()
+//@   loop L1 invariant forall j int :: 0 <= j && j < len(list) ==> list[j] == rawget(Worker, itkey(j)) && itkey(j) == keyof(Worker, list[j].Workername)
+//@   loop L1 invariant forall j int :: 0 <= j && j < len(list) ==> contains(list, list[j])
+//@   loop L1 decreases [C02.getall.worker.term] itlen() - itpos()
